@@ -31,6 +31,7 @@ PIECES = [
     ("    import os as _os\n    r = _os.sep\n", True),
     ("    try:\n        r = int('x')\n    except ValueError as e:\n        r = repr(e)\n", True),
     ("    class K:\n        v = 1\n        def m(self):\n            return self.v\n    r = K().m()\n", None),   # class-body names: the checker may reject (safe)
+    ("    r = 'col1\tcol2'.split('\t') + [len('\t')]\n", True),      # real TAB characters inside string literals: the text is shipped as it is
     ("    r = GLOBAL + a\n", False),
     ("    r = os.sep\n", False),
     ("    r = helper(a)\n", False),
@@ -247,6 +248,16 @@ def exec_semantics(ck, tier, rng):
                     ck.fail("remote-error-text-lacks-the-exception-type:" + kind, {"text": str(val)[-300:]})
             else:
                 ck.fail("channel-does-not-close-with-the-error-when-the-body-ends-by:" + kind, {"status": st, "value": repr(val)[:200]})
+        # the given text runs as it is: TAB characters inside literals of a source string or a function survive the trip
+        def tabbed(channel):
+            channel.send(["a	b".split("	"), len("	")])        # (real TABs in this line)
+
+        for label, src in (("string", "channel.send(['a\tb'.split('\t'), len('\t')])".replace("\t", "\t".encode().decode("unicode_escape"))), ("function", tabbed)):
+            ch = gw.remote_exec(src)
+            ck.case(("tab-literal", label), nontrivial=True)
+            st, val = X.with_timeout(lambda ch=ch: ch.receive(X.T), 20)
+            if st != "ok" or list(val) != [["a", "b"], 1]:
+                ck.fail("remote-code-differs-from-the-given-text:tab-in-literal:" + label, {"status": st, "value": repr(val)[:100]})
         # channel bound, __name__, explicit close refused, auto-close exactly at the end
         ch = gw.remote_exec(X.W_NAME)
         if list(ch.receive(X.T)) != ["__channelexec__", True, "Channel"]:
